@@ -13,7 +13,11 @@ pub fn eval(state: &mut RunState, orig: u16, line: &str) {
     // scope)
     let line_static = unsafe { &*(line as *const str) };
     if let Err(err) = eval_inner(state, orig, line_static) {
+        #[cfg(lace_verif)]
+        crate::verif::err(format_args!("\x01EvalError\n\x02"));
         eprintln!("{:?}", err);
+        #[cfg(lace_verif)]
+        crate::verif::err(format_args!("\x03"));
     }
 }
 
